@@ -15,7 +15,7 @@ pub fn files_json(files: &[(String, String)]) -> serde_json::Value
 
 /// lex .. analyse by hand (as Compiler::analyze_and_resolve does, without
 /// sorting and without IR generation): does any node still carry an error?
-fn analysed_tree_carries_an_error(src: &str) -> bool
+fn analysed_tree_carries_an_error(src: &str) -> Option<String>
 {
 	use penne::alpha::*;
 	let d = parser::parse(lexer::lex(src, "main.pn"));
@@ -41,10 +41,29 @@ fn analysed_tree_carries_an_error(src: &str) -> bool
 		// generated: that error is an artefact of doing the stages by hand)
 		if dump.matches("Error(").count() > dump.matches("Error(NotACompileTimeConstant").count()
 		{
-			return true;
+			// which error, and under which kind of node: `Error(Variant {` and
+			// the nearest node name before it
+			let at = dump
+				.match_indices("Error(")
+				.map(|(i, _)| i)
+				.find(|i| !dump[*i..].starts_with("Error(NotACompileTimeConstant"))
+				.unwrap_or(0);
+			let variant: String = dump[at + 6..].chars().take_while(|c| c.is_alphanumeric()).collect();
+			const NODES: &[&str] = &[
+				"TypeCast", "BitCast", "Element", "FunctionCall", "Binary", "Unary", "Assignment", "Declaration",
+				"ArrayLiteral", "Structural", "Deref", "LengthOfArray", "SizeOf", "Comparison", "Member",
+				"Parenthesized", "MethodCall", "If", "Block",
+			];
+			let node = NODES
+				.iter()
+				.filter_map(|n| dump[..at].rfind(&format!("{} {{", n)).map(|i| (i, *n)))
+				.max()
+				.map(|(_, n)| n)
+				.unwrap_or("?");
+			return Some(format!("{} under {}", variant, node));
 		}
 	}
-	false
+	None
 }
 
 /// the source without its functions (definitions and heads)
@@ -159,18 +178,18 @@ fn judge(case: &Case, out: &mut CaseOut, want_sample: bool)
 		// And is the error still somewhere in the analysed tree (then the
 		// resolver drops it), or is it gone before resolution (the recorded
 		// finding: found only in a discarded pre-analysis pass)?
-		let carried = case.files.len() == 1 && analysed_tree_carries_an_error(&case.files[0].1);
+		let carried = if case.files.len() == 1 { analysed_tree_carries_an_error(&case.files[0].1) } else { None };
 		let class = if among_declarations
 		{
-			"among the declarations"
+			"among the declarations".to_string()
 		}
-		else if carried
+		else if let Some(what) = carried
 		{
-			"an error in the analysed tree is not reported"
+			format!("an error in the analysed tree is not reported: {}", what)
 		}
 		else
 		{
-			"needs a function body"
+			"needs a function body".to_string()
 		};
 		out.fail(
 			format!("failure with an empty list of errors (stage {}) [{}]", o.stage, class),
